@@ -25,6 +25,15 @@ pub fn run(prop: &'static str, replay: Option<String>) -> i32 {
     let out = run_family(&grammars, &args, true);
     let mut cov = collect(prop, &out, &mut rep);
     finish_common(prop, &out, &mut rep);
+    if prop == "C11" {
+        let extra = c11_extra(&grammars, &out, &mut rep);
+        cov["outcomes"] = json!(out.gens.len() as u64 + out.rejected as u64);
+        cov["executions"] = json!(out.gens.len() as u64 + extra["compile_calls"].as_u64().unwrap_or(0) + extra["graph_outputs"].as_u64().unwrap_or(0));
+        cov["evaluations"] = cov["executions"].clone();
+        cov["nontrivial"] = json!(out.gens.len() as u64);
+        cov["samples"] = json!(out.gens.iter().take(3).map(|g| json!({"accepted_grammar": g.text, "emitted_bytes": g.code.len()})).collect::<Vec<_>>());
+        cov["c11"] = extra;
+    }
     let states = cov["outcomes"].as_u64().unwrap_or(0).max(1);
     let transitions = cov["executions"].as_u64().unwrap_or(0).max(1);
     cov["states"] = json!(states);
@@ -60,9 +69,17 @@ pub fn finish_common(prop: &str, out: &engine_b::BOutcome, rep: &mut Report) {
     if prop == "C11" {
         for (i, e) in &out.compile_failures {
             let g = &out.gens[*i];
-            let first = e.lines().find(|l| l.starts_with("error")).unwrap_or("").to_string();
+            let first = e
+                .lines()
+                .find(|l| l.trim_start_matches("error").len() < l.len() && l.contains(": "))
+                .unwrap_or("")
+                .trim_start_matches("error")
+                .trim_start_matches(|c: char| c == '[' || c == ']' || c.is_ascii_alphanumeric())
+                .trim_start_matches(": ")
+                .to_string();
+            let first: String = first.chars().take(90).collect();
             rep.violation(Violation {
-                key: format!("C11:does-not-compile:{}", engine_b::shape_class(&g.grammar)),
+                key: format!("C11:does-not-compile:{first}"),
                 summary: format!("C11: accepted grammar `{}` yields a parser that does not compile: {first}", g.text.trim().replace('\n', " ")),
                 replay: json!({"grammar": g.text, "sexp": vmodel::sexp::to_sexp(&g.grammar), "rustc": e}),
             });
@@ -98,4 +115,128 @@ fn replay_one(prop: &'static str, path: &str, mut rep: Report) -> i32 {
     cov["mode"] = json!("replay");
     cov["samples"] = json!([path]);
     rep.finish(cov)
+}
+
+/// C11 beyond "accepted => compiles": graph output for every accepted grammar, and the gate of
+/// `lelwel::compile` (rejected => Ok(false) and no file; accepted => Ok(true) and generated.rs).
+fn c11_extra(grammars: &[vmodel::Grammar], out: &engine_b::BOutcome, rep: &mut Report) -> serde_json::Value {
+    use crate::front::try_front;
+    let scratch = vcommon::scratch_dir(&format!("c11-{}", std::process::id()));
+    let old_cwd = std::env::current_dir().ok();
+    let _ = std::env::set_current_dir(&scratch);
+    // 1. graph output (writes parser.gv into the current directory): sequential
+    let mut graphs = 0u64;
+    for g in &out.gens {
+        let text = &g.text;
+        let _ = std::fs::remove_file(scratch.join("parser.gv"));
+        let r = try_front(text, |fr| lelwel::backend::graphviz::GraphvizOutput::run(fr.cst, fr.sema).map_err(|e| e.to_string()));
+        graphs += 1;
+        let problem = match r {
+            Err(p) => Some(format!("panicked: {p}")),
+            Ok(Err(e)) => Some(format!("returned error: {e}")),
+            Ok(Ok(())) => match std::fs::read_to_string(scratch.join("parser.gv")) {
+                Ok(t) if t.starts_with("digraph {") && t.trim_end().ends_with('}') => None,
+                Ok(t) => Some(format!("malformed graph file ({} bytes)", t.len())),
+                Err(e) => Some(format!("no parser.gv: {e}")),
+            },
+        };
+        if let Some(p) = problem {
+            rep.violation(Violation {
+                key: format!("C11:graph-output:{}", engine_b::shape_class(&g.grammar)),
+                summary: format!("C11: graph output for accepted grammar `{}` {p}", text.trim().replace('\n', " ")),
+                replay: json!({"grammar": text, "sexp": vmodel::sexp::to_sexp(&g.grammar), "problem": p}),
+            });
+        }
+    }
+    // 2. the gate in lelwel::compile: repository fixtures + a prefix of the family (accepted and rejected)
+    let mut texts: Vec<(String, String)> = vec![];
+    if let Ok(rd) = std::fs::read_dir("/repo/tests/frontend") {
+        let mut files: Vec<_> = rd.flatten().map(|e| e.path()).filter(|p| p.extension().is_some_and(|x| x == "llw")).collect();
+        files.sort();
+        for f in files {
+            if let Ok(t) = std::fs::read_to_string(&f) {
+                texts.push((f.display().to_string(), t));
+            }
+        }
+    }
+    let mut rejected_seen = 0;
+    for g in grammars {
+        let t = g.text();
+        let rejected = try_front(&t, |fr| fr.has_error()).unwrap_or(true);
+        if rejected && rejected_seen < 400 {
+            rejected_seen += 1;
+            texts.push((format!("family member #{rejected_seen}"), t));
+        }
+    }
+    for g in out.gens.iter().take(100) {
+        texts.push(("accepted family member".to_string(), g.text.clone()));
+    }
+    // silence the diagnostics compile() prints to stderr
+    let devnull = std::fs::OpenOptions::new().write(true).open("/dev/null").ok();
+    let saved = unsafe { libc::dup(2) };
+    if let Some(d) = &devnull {
+        use std::os::fd::AsRawFd;
+        unsafe { libc::dup2(d.as_raw_fd(), 2) };
+    }
+    let mut calls = 0u64;
+    let mut rejected_calls = 0u64;
+    let mut viols = vec![];
+    for (i, (name, text)) in texts.iter().enumerate() {
+        let dir = scratch.join(format!("c{i}"));
+        let outdir = dir.join("out");
+        let _ = std::fs::create_dir_all(&outdir);
+        let path = dir.join("g.llw");
+        let _ = std::fs::write(&path, text);
+        let has_error = match try_front(text, |fr| fr.has_error()) {
+            Ok(b) => b,
+            Err(_) => continue, // front-end panic: C12
+        };
+        let res = std::panic::catch_unwind(|| {
+            lelwel::compile(path.to_str().unwrap(), outdir.to_str().unwrap(), false, false, 0, false, true)
+        });
+        calls += 1;
+        let gen = outdir.join("generated.rs").exists();
+        let skel = dir.join("lexer.rs").exists() || dir.join("parser.rs").exists();
+        let problem = match (&res, has_error) {
+            (Err(_), _) => Some("lelwel::compile panicked".to_string()),
+            (Ok(Err(e)), _) => Some(format!("lelwel::compile returned an I/O error: {e}")),
+            (Ok(Ok(ok)), true) => {
+                rejected_calls += 1;
+                if *ok || gen || skel {
+                    Some(format!("grammar has an error diagnostic but compile returned {ok}, generated.rs written: {gen}, skeletons written: {skel}"))
+                } else {
+                    None
+                }
+            }
+            (Ok(Ok(ok)), false) => {
+                if !*ok || !gen {
+                    Some(format!("grammar has no error diagnostic but compile returned {ok}, generated.rs written: {gen}"))
+                } else {
+                    None
+                }
+            }
+        };
+        if let Some(p) = problem {
+            viols.push(Violation {
+                key: format!("C11:compile-gate:{}", if has_error { "rejected" } else { "accepted" }),
+                summary: format!("C11: {name}: {p}"),
+                replay: json!({"text": text, "problem": p}),
+            });
+        }
+        let _ = std::fs::remove_dir_all(&dir);
+    }
+    if saved >= 0 {
+        unsafe {
+            libc::dup2(saved, 2);
+            libc::close(saved);
+        }
+    }
+    for v in viols {
+        rep.violation(v);
+    }
+    if let Some(c) = old_cwd {
+        let _ = std::env::set_current_dir(c);
+    }
+    vcommon::remove_dir(&scratch);
+    json!({"graph_outputs": graphs, "compile_calls": calls, "compile_calls_on_rejected_grammars": rejected_calls})
 }
